@@ -96,6 +96,38 @@ theorem dec_feed_reachable (p : Params) (m : Method) (s : DecState) (input : Lis
     (h : Dec.feedAll p m s input = .ok (s', es)) : DecProof.Reachable p s' :=
   DecProof.feed_reachable p m _ s input hs h
 
+/-- Between `consume_once` calls the encoder satisfies
+`current_chunk_size + maybe_mid_stuff < max_chunk_size` (`EncProof.Reachable` = `EncoderState::new`
+on an empty iovec followed by any `consume_once` calls on non-empty inputs, by either method). -/
+theorem enc_inv_between_calls (p : Params) (hp : p.Valid) {s : EncState} {nid : Nat} {q : Pipe}
+    (h : EncProof.Reachable p s nid q) : s.cur + (if s.mid then 1 else 0) < s.maxChunk := by
+  obtain ⟨_, _, _, _, _, _, _, hinv, _⟩ := EncProof.reachable_shape p hp h
+  exact hinv
+
+/-- None of the encoder's `assert!`s can fire: in every reachable state and for every non-empty
+input, all assertions on the path `consume_once` takes hold (entry, the `cur < max` checks, `write`
+/`copy`/`write_partial_stuff_sequence`'s `cur ≤ max`, the non-empty window, `encode_header`'s
+`chunk_size < RADIX²`, `1 ≤ len ≤ 2`, `header[len] == 0`, `backfill_or_panic`'s placeholder being
+present with exactly that length, the exit assert, and the callers' `consumed ≤ input.len()` and
+progress asserts); see `EncProof.OnceAsserts`. -/
+theorem enc_asserts_unreachable (p : Params) (hp : p.Valid) {s : EncState} {nid : Nat} {q : Pipe}
+    (h : EncProof.Reachable p s nid q) (m : Method) (input : List UInt8) (hne : input ≠ []) :
+    EncProof.OnceAsserts p s nid m q input :=
+  EncProof.once_asserts p hp h m input hne
+
+/-- … and the same for `terminate` (see `EncProof.FinishAsserts`). -/
+theorem enc_finish_asserts_unreachable (p : Params) (hp : p.Valid) {s : EncState} {nid : Nat} {q : Pipe}
+    (h : EncProof.Reachable p s nid q) : EncProof.FinishAsserts p s q :=
+  EncProof.finish_asserts p hp h
+
+/-- The states `encode_borrow`/`encode_copy` hand back are reachable ones (so the two theorems
+above apply to every call of every run). -/
+theorem enc_feed_reachable (p : Params) (m : Method) (s : EncState) (nid : Nat) (q : Pipe)
+    (input : List UInt8) (h : EncProof.Reachable p s nid q) :
+    EncProof.Reachable p (Enc.feedAll p s nid m input).1 (Enc.feedAll p s nid m input).2.1
+      (q.run ((Enc.feedAll p s nid m input).2.2.map (·.op))) :=
+  EncProof.feed_reachable p m _ s nid q input h
+
 /-- C01 given the spec-level round trip. -/
 theorem roundtrip_given_spec (p : Params) (hp : p.Valid)
     (hrt : ∀ d, Spec.decode p (Spec.encode p d) = some d)
